@@ -218,6 +218,70 @@ def build_frame(desc):
     return df
 
 
+def frame_histories(thorough=False):
+    """Histories of frames with the SAME column names, for checks that ask
+    whether what tdda reports for a frame depends on frames the process has
+    handled before.  Yields {'mode', 'hist': [frame, ...], 'frame': last}:
+    mode 'new-frame' = each step is a new frame object (earlier ones stay
+    alive), 'same-object' = the columns of the one frame object are replaced
+    in place (needs equal row counts)."""
+    fams = BASE_FAMILIES + (EXTRA_FAMILIES if thorough else [])
+    nb = 3 if thorough else 2
+
+    def fixed(fam, name='a'):
+        return {'name': name, 'fam': fam, 'v': FAMILIES[fam]['values'][-2:]}
+    for fa in fams:
+        A = fixed(fa)
+        for fb in fams:
+            vb = FAMILIES[fb]['values'][:nb]
+            for n in (2, 0, 1):
+                for tup in itertools.product(vb, repeat=n):
+                    B = {'name': 'a', 'fam': fb, 'v': list(tup)}
+                    if fa == fb and B['v'] == A['v']:
+                        continue
+                    for mode in ('new-frame', 'same-object'):
+                        if mode == 'same-object' and n != 2:
+                            continue
+                        yield {'mode': mode, 'hist': [{'cols': [A]}],
+                               'frame': {'cols': [B]}}
+    # the two columns exchange their types
+    for fa in fams:
+        for fb in fams:
+            if fa == fb:
+                continue
+            for mode in ('new-frame', 'same-object'):
+                yield {'mode': mode,
+                       'hist': [{'cols': [fixed(fa, 'a'), fixed(fb, 'b c')]}],
+                       'frame': {'cols': [fixed(fb, 'a'), fixed(fa, 'b c')]}}
+    # category-count boundary after a column on the other side of it
+    for n1, n2 in ((21, 20), (20, 21), (25, 2), (2, 25), (19, 21)):
+        for fam2 in ('manycat', 'cat'):
+            if fam2 == 'cat' and n2 > 3:
+                continue
+            v2 = manycat_values(n2, 0, 0) if fam2 == 'manycat' \
+                else ['a', 'B1']
+            yield {'mode': 'new-frame',
+                   'hist': [{'cols': [{'name': 'a', 'fam': 'manycat',
+                                       'v': manycat_values(n1, 0, 1)}]}],
+                   'frame': {'cols': [{'name': 'a', 'fam': fam2, 'v': v2}]}}
+    if thorough:
+        for fa in BASE_FAMILIES:            # two earlier frames
+            for fc in BASE_FAMILIES:
+                for fb in BASE_FAMILIES:
+                    for mode in ('new-frame', 'same-object'):
+                        yield {'mode': mode,
+                               'hist': [{'cols': [fixed(fa)]},
+                                        {'cols': [fixed(fc)]}],
+                               'frame': {'cols': [fixed(fb)]}}
+
+
+def mutate_into(df, frame):
+    """Turn the frame object df into `frame` in place (same row count and
+    column names): the columns are assigned one by one."""
+    for c in frame['cols']:
+        df[c['name']] = build_series(c)
+
+
 def tz_offset_minutes(fam):
     return {'dttzutc': 0, 'dttz0530': 330}.get(fam)
 
